@@ -4,7 +4,7 @@ import random
 
 import numpy as np
 
-from .. import conform, conv, env, files, oracles, reads
+from .. import conform, conv, env, files, monitors, oracles, reads
 from ..oracles import KEYS
 from .c03 import spec_fields
 
@@ -119,6 +119,7 @@ def run_case(case, ctx):
     strata.add('layout:' + fam)
     import zlib
     reuse = zlib.crc32(case['id'].encode()) % 2 == 1
+    remote = zlib.crc32(case['id'].encode()) % 4 == 2 and case['file'].get('kind') != 'fixture'
     shared_c = []
     for q in range(case['nreq']):
         reqs = [rand_req(n, b, rng) for n, b in zip((nI, nX, nZ), sp.bs)]
@@ -146,9 +147,20 @@ def run_case(case, ctx):
                 if reuse and shared_c:
                     c = shared_c[0]
                 else:
-                    c = SgzCropper(path)
+                    # a quarter of the cases crop a REMOTE source (the parallel backend; downloads take a while and the interpreter hands over
+                    # between the pool threads at any statement of the loader / cropper)
+                    if remote:
+                        fb = monitors.FakeBlob(path)
+                        fb.latency = 0.001
+                        c = SgzCropper(fb)
+                        strata.add('source:remote')
+                    else:
+                        c = SgzCropper(path)
                     if reuse:
                         shared_c.append(c)
+                yi = monitors.YieldInjector(suffixes=('seismic_zfp/loader.py', 'seismic_zfp/cropping.py'), seed=q) if remote else None
+                if yi:
+                    yi.__enter__()
                 try:
                     if q % 3 == 1:
                         if sp.stored:
@@ -162,7 +174,9 @@ def run_case(case, ctx):
                     else:
                         c.write_cropped_file_by_coords(out, to_coord(ir, il, 0), to_coord(xr, xl, 1), to_coord(zr, rz, 2))
                 finally:
-                    if not reuse:
+                    if yi:
+                        yi.__exit__(None, None, None)
+                    if not reuse and not remote:
                         c.close()
                 if reuse and q > 0:
                     strata.add('cropper-reused')
@@ -280,7 +294,7 @@ def run_case(case, ctx):
 
 def finalize(tier, cases, results, counters, strata):
     reasons = []
-    need = ['layout:default', 'layout:zslice', 'layout:general', 'form:index', 'form:coords', 'invalid:empty', 'invalid:inverted', 'invalid:outside-high',
+    need = ['source:remote', 'layout:default', 'layout:zslice', 'layout:general', 'form:index', 'form:coords', 'invalid:empty', 'invalid:inverted', 'invalid:outside-high',
             'invalid:outside-low', 'invalid:none', 'invalid:absent', 'refuse-2d', 'refuse-irregular', 'cropper-reused', 'cropper-read-before-crop', 'invalid:stop-past-end:large-numbers', 'invalid:stop-past-end:small-numbers'] + ['req-%s:%s' % (a, k) for a in 'ixz' for k in ('aligned', 'unaligned', 'tail', 'full', 'none', 'one')]
     for s in need:
         if s not in strata:
